@@ -40,8 +40,10 @@ pub fn remove_protection_of_long_packet(
         return Ok(None);
     }
 
-    let specific_bits = LongSpecificBits::from(*first_byte);
-    let pn_len = specific_bits.pn_len()?;
+    // The reserved bits are NOT checked here: header protection is not authenticated, so a damaged
+    // or forged packet yields arbitrary bits. They are checked by `check_reserved_bits_of_long_packet`
+    // after packet protection has been removed (RFC 9000 section 17.2).
+    let pn_len = (*first_byte & LongSpecificBits::PN_LEN_MASK) + 1;
     let (_, undecoded_pn) = take_pn_len(pn_len)(max_pn_buf).unwrap();
 
     Ok(Some(undecoded_pn))
@@ -82,11 +84,24 @@ pub fn remove_protection_of_short_packet(
         return Ok(None);
     }
 
+    // The reserved bits are checked only after packet protection has been removed, see
+    // `check_reserved_bits_of_short_packet` (RFC 9000 section 17.3.1).
     let clear_bits = ShortSpecificBits::from(*first_byte);
-    let pn_len = clear_bits.pn_len()?;
+    let pn_len = (*first_byte & ShortSpecificBits::PN_LEN_MASK) + 1;
     let (_, undecoded_pn) = take_pn_len(pn_len)(max_pn_buf).unwrap();
 
     Ok(Some((undecoded_pn, clear_bits.key_phase())))
+}
+
+/// Checks the reserved bits of a long header whose header AND packet protection have been removed.
+/// A non-zero value is a connection error of type PROTOCOL_VIOLATION, but only for an authenticated packet.
+pub fn check_reserved_bits_of_long_packet(first_byte: u8) -> Result<(), Error> {
+    LongSpecificBits::from(first_byte).pn_len().map(|_| ())
+}
+
+/// Checks the reserved bits of a short header whose header AND packet protection have been removed.
+pub fn check_reserved_bits_of_short_packet(first_byte: u8) -> Result<(), Error> {
+    ShortSpecificBits::from(first_byte).pn_len().map(|_| ())
 }
 
 /// Decrypt the body of a packet, applicable to both long and short packets.
